@@ -292,6 +292,9 @@ pzgstrf_MemInit(int_t n, int_t annz, superlumt_options_t *superlumt_options,
 	if ( Glu->dynamic_snode_bound == YES ) {
 	    if ( FILL_LUSUP < 0 ) nzlumax = -FILL_LUSUP * annz;
 	    else nzlumax = FILL_LUSUP; /* estimate an upper bound */
+	    /* The relaxed supernodes are laid out at the beginning of lusup[*]
+	       by PresetMap() and are never checked against the estimate. */
+	    if ( nzlumax < Glu->nextlu ) nzlumax = Glu->nextlu;
 	} else {
 	    nzlumax = Glu->nzlumax; /* preset as static upper bound */
 	}
